@@ -10,9 +10,18 @@
 //	         contracts, notification list, executed script hashes/invocations).
 //	safe   - every manifest-safe method, whatever flags are requested.
 //	chain  - GetCallFlags along call chains of length <= 3, all 16x16 requests.
+//	flags-block - the compiled contract's operations x 16 flag sets as real
+//	         transactions (one per block): storage of the deployed contracts
+//	         before/after and the notifications of the execution result; must
+//	         agree with the test VM and satisfy the same oracle.
 //	perm   - every permission shape (and pairs) x callees x methods: real
-//	         System.Contract.Call and pure IsAllowed/CanCall against the
+//	         System.Contract.Call (test VM, and in blocks for the single-
+//	         permission callers) and pure IsAllowed/CanCall against the
 //	         property's predicate.
+//
+// Findings so far: permission:group-kind-ignores-method-list (fixed in /repo,
+// 3af48b5); flags:native-calls-contract-without-AllowCall:* (known finding,
+// see FINDING-native-callback-without-allowcall.md).
 package c16
 
 import (
@@ -21,6 +30,7 @@ import (
 	"sort"
 	"strings"
 	"sync"
+	"sync/atomic"
 	"testing"
 	"time"
 
@@ -173,11 +183,14 @@ func (en *engine) violation(kind, key string, fc flagCase) {
 	en.mu.Lock()
 	en.allVio[fmt.Sprintf("%s %s %s: %s", fc.Op, fc.FName, fc.Path, fc.What)]++
 	en.vio[kind+fc.Op]++
-	en.vio[kind]++
 	a, b := en.vio[kind+fc.Op], en.vio[kind]
 	en.mu.Unlock()
-	if a <= 2 && b <= 6 { // a root cause is reported a few times at most
-		en.r.Violation(key, fc)
+	if a <= 2 && b < 6 { // a root cause is reported a few times at most
+		if en.r.Violation(key, fc) { // known findings do not use up the budget of new ones
+			en.mu.Lock()
+			en.vio[kind]++
+			en.mu.Unlock()
+		}
 	} else {
 		en.r.Outcome("suppressed-duplicate:" + kind)
 	}
@@ -246,7 +259,8 @@ func (en *engine) one(s *opSpec, path string, combo []argv, f int) (viol bool) {
 			// one root cause with its own key: a native method (running without
 			// AllowCall) makes the ledger call a deployed contract (payment callback etc.)
 			fc.What = "a native method running without AllowCall caused a call of a deployed contract"
-			en.violation("nc", fmt.Sprintf("flags:native-calls-contract-without-AllowCall:%s:%s", s.Op, fname(f)), fc)
+			// key: flags:native-calls-contract-without-AllowCall:native:<Contract>.<method>:<nparams>:<flags>
+			en.violation("nc", fmt.Sprintf("flags:native-calls-contract-without-AllowCall:%s:%s", strings.Replace(s.Op, "/", ":", 1), fname(f)), fc)
 		} else {
 			en.violation("c", fmt.Sprintf("flags:%s:%s:called-without-AllowCall", fname(f), s.Op), fc)
 		}
@@ -282,6 +296,7 @@ type chainCase struct {
 }
 
 var chainFault vk.Counter
+var chainVio atomic.Int64
 
 var getFlagsScript = func() []byte {
 	bw := io.NewBufBinWriter()
@@ -372,7 +387,11 @@ func (w *world) chainOne(r *vk.Run, cc *chainCase, exact *vk.Counter) (violated 
 	for i, got := range seen {
 		if got&^caller != 0 || got&^req[i] != 0 {
 			cc.What = fmt.Sprintf("level %d runs with %s: caller has %s, requested %s", i+1, fname(got), fname(caller), fname(req[i]))
-			r.Violation(fmt.Sprintf("chain:%s:len%d:%s:%s:level%d-flags-grew", cc.Shape, cc.Len, fname(cc.F1), fname(cc.F2), i+1), cc)
+			if chainVio.Add(1) <= 3 { // a root cause is reported a few times at most
+				r.Violation(fmt.Sprintf("chain:%s:len%d:%s:%s:level%d-flags-grew", cc.Shape, cc.Len, fname(cc.F1), fname(cc.F2), i+1), cc)
+			} else {
+				r.Outcome("chain:flags-grew(not reported one by one)")
+			}
 			return true
 		}
 		want := caller & req[i]
@@ -474,6 +493,9 @@ func TestCheck(t *testing.T) {
 	ps := &permStats{other: map[string]int{}, witness: map[string]*permCase{}, rootBySub: map[string]int{}}
 	permInfo := runPerm(r, ps)
 
+	// -- a subset through real blocks: the compiled contract's operations, all flag sets
+	btxs, bhalt, bagree := flagsInBlocks(r, nil)
+
 	// -- sub-check chain
 	var chainExact vk.Counter
 	ccs := chainCases()
@@ -572,32 +594,35 @@ func TestCheck(t *testing.T) {
 		byFlag[fname(f)] = fmt.Sprintf("HALT %d / FAULT %d", en.byFlag[f][0].Get(), en.byFlag[f][1].Get())
 	}
 	cov := map[string]any{
-		"states":                        en.states.Len() + len(ccs) + int(ps.pure),
-		"transitions":                   int(en.execs.Get()) + chainDone + int(ps.real+ps.block),
-		"traces_validated_against_impl": int(en.execs.Get()) + chainDone + int(ps.real+ps.block+ps.pure),
-		"flag_sets":                     16,
-		"operations":                    len(specs),
-		"operations_native_methods":     len(nat),
-		"operations_system_calls":       len(sys),
-		"system_calls_in_tree":          len(w.syscalls),
-		"argument_combinations":         combos,
-		"argument_cap_per_method":       cap,
-		"methods_with_capped_arguments": capped,
-		"executions":                    int(en.execs.Get()),
-		"executions_halted":             int(en.halts.Get()),
-		"violating_operation_flag_path": en.allVio,
-		"halt_fault_by_flag_set":        byFlag,
+		"states":                                      en.states.Len() + len(ccs) + int(ps.pure),
+		"transitions":                                 int(en.execs.Get()) + chainDone + int(ps.real+ps.block) + btxs,
+		"traces_validated_against_impl":               int(en.execs.Get()) + chainDone + int(ps.real+ps.block+ps.pure),
+		"flag_sets":                                   16,
+		"operations":                                  len(specs),
+		"operations_native_methods":                   len(nat),
+		"operations_system_calls":                     len(sys),
+		"system_calls_in_tree":                        len(w.syscalls),
+		"argument_combinations":                       combos,
+		"argument_cap_per_method":                     cap,
+		"methods_with_capped_arguments":               capped,
+		"executions":                                  int(en.execs.Get()),
+		"executions_halted":                           int(en.halts.Get()),
+		"violating_operation_flag_path":               en.allVio,
+		"halt_fault_by_flag_set":                      byFlag,
 		"operations_with_effect_seen_under_all_flags": effectOps,
-		"operations_never_seen_having_an_effect":       never,
-		"declared_effect_never_observed":               declGap,
-		"operations_never_halting_under_all_flags":     neverHalt,
-		"chain_cases":                                  len(ccs),
-		"chain_cases_done":                             chainDone,
-		"chain_exact_intersection":                     int(chainExact.Get()),
-		"chain_cases_halted":                           chainDone - int(chainFault.Get()),
-		"permission":                                   permInfo,
-		"paths":                                        "direct: entry(All)->op with f; viaA: entry->UA.run(f)->op(All); viaAreq: entry->UB.run(All)->op(f); u: entry->UA.run(f)[one op of compiled code]; entry: raw system call in an entry script loaded with f",
-		"rule":                                         "every operation x every argument combination of its menu x every path x all 16 flag sets; oracle on HALTed executions: storage diff of all contracts / notification list / executed contexts vs the flags the code ran with",
+		"operations_never_seen_having_an_effect":      never,
+		"declared_effect_never_observed":              declGap,
+		"operations_never_halting_under_all_flags":    neverHalt,
+		"in_block_transactions":                       btxs,
+		"in_block_halted":                             bhalt,
+		"in_block_agreeing_with_test_vm":              bagree,
+		"chain_cases":                                 len(ccs),
+		"chain_cases_done":                            chainDone,
+		"chain_exact_intersection":                    int(chainExact.Get()),
+		"chain_cases_halted":                          chainDone - int(chainFault.Get()),
+		"permission":                                  permInfo,
+		"paths":                                       "direct: entry(All)->op with f; viaA: entry->UA.run(f)->op(All); viaAreq: entry->UB.run(All)->op(f); u: entry->UA.run(f)[one op of compiled code]; entry: raw system call in an entry script loaded with f",
+		"rule":                                        "every operation x every argument combination of its menu x every path x all 16 flag sets; oracle on HALTed executions: storage diff of all contracts / notification list / executed contexts vs the flags the code ran with",
 	}
 	r.Finish(cov, []string{
 		"effects are read from the test VM's interop context after a HALT (storage change set of its private store layer compared with the chain's values; ic.Notifications; OnExecHook script hashes and ic.Invocations); a FAULTed execution is discarded by the ledger and is not judged",
@@ -687,6 +712,22 @@ func runPerm(r *vk.Run, ps *permStats) map[string]any {
 		ps.mu.Unlock()
 		judge("perm-real", j, got, e)
 	})
+	// observed, not judged: a script loaded dynamically by a caller WITHOUT any
+	// permission calls a non-safe method (the loaded script is not a deployed
+	// contract; it runs with read-only flags at most)
+	loadObs := "n/a"
+	for _, cs := range dep {
+		if len(cs.Perms) == 0 {
+			bw := io.NewBufBinWriter()
+			emit.AppCall(bw.BinWriter, pw.byName["Cn"].Hash, "other", callflag.All, 1)
+			prog := []any{[]any{chainx.OpLoadScript, bw.Bytes(), 15, []any{}}}
+			e := pw.run(callScript(cs.c.Hash, "run", 15, prog), fAll)
+			loadObs = e.State
+			if e.State != "HALT" {
+				loadObs += ": " + e.Fault
+			}
+		}
+	}
 	// a subset through real blocks: the single-permission callers
 	var btx []pj
 	for _, j := range pjs {
@@ -738,6 +779,7 @@ func runPerm(r *vk.Run, ps *permStats) map[string]any {
 		"real_allowed":                ps.allowed,
 		"real_denied":                 ps.denied,
 		"mismatches_group_root_cause": ps.rootCause,
+		"observed_not_judged_call_of_non_safe_method_from_a_script_loaded_by_a_caller_without_permissions": loadObs,
 	}
 	info["mismatches_group_root_cause_by_subcheck"] = ps.rootBySub
 	if len(ps.witness) > 0 {
@@ -748,11 +790,11 @@ func runPerm(r *vk.Run, ps *permStats) map[string]any {
 			}
 		}
 		r.Violation("permission:group-kind-ignores-method-list", map[string]any{
-			"what":                  "a caller whose only matching permission is {contract: <group of the callee>, methods: [a list without the method]} may call the method: Permission.IsAllowed returns the group-membership test for PermissionGroup without consulting the method list (pkg/smartcontract/manifest/permission.go, case PermissionGroup)",
-			"minimal_case":          min,
-			"witness_real_call":     ps.witness["perm-real"],
-			"witness_real_block":    ps.witness["perm-block"],
-			"mismatches_in_total":   ps.rootCause,
+			"what":                   "a caller whose only matching permission is {contract: <group of the callee>, methods: [a list without the method]} may call the method: Permission.IsAllowed returns the group-membership test for PermissionGroup without consulting the method list (pkg/smartcontract/manifest/permission.go, case PermissionGroup)",
+			"minimal_case":           min,
+			"witness_real_call":      ps.witness["perm-real"],
+			"witness_real_block":     ps.witness["perm-block"],
+			"mismatches_in_total":    ps.rootCause,
 			"mismatches_by_subcheck": ps.rootBySub,
 		})
 	}
@@ -833,6 +875,17 @@ func replay(r *vk.Run) {
 		if !found {
 			fmt.Println("replay: case not found in the menu")
 			os.Exit(3)
+		}
+	case d.Sub == "flags-block":
+		var bc blockCase
+		if err := r.ReadReplay(&bc); err != nil {
+			fmt.Println("cannot read replay:", err)
+			os.Exit(3)
+		}
+		for i := 0; i < 5; i++ {
+			// the case alone on a fresh chain (the recorded run had bc.History transactions before it)
+			n, h, a := flagsInBlocks(r, &bc)
+			fmt.Printf("replay %d: %s(%s) with %s in a block: txs=%d halted=%d agreeing=%d violations so far=%d\n", i, bc.Op, bc.Args, bc.FName, n, h, a, r.NViolations())
 		}
 	case d.Sub == "chain":
 		var cc chainCase
